@@ -84,3 +84,6 @@ package armor
 //@   call Decode#1 requires nocrlf(bytes(arg2))                                                                                     [C08]
 //@   modifies r.started, r.unread, r.buf, r.err, r.r.$rem, r.r.$bufd, r.r.$under.$rem, p[:]
 
+
+//@ methodset (*armoredWriter) Close, Write                                             [C08 C12 C13]
+//@ methodset (*armoredReader) Read, setErr                                             [C08 C12 C13]
